@@ -34,6 +34,7 @@ SOFTWARE.
 
 #%% 
 import numpy as np
+from fractions import Fraction
 from .objects import Fxp, implements
 from . import utils
 from . import _n_word_max
@@ -50,6 +51,16 @@ def _raw_cast(x, y, n_bits):
     if n_bits >= (_n_word_max if x.signed == y.signed else 53):
         return lambda m: np.asarray(m).astype(object)   # (astype also turns a numpy scalar, e.g. an indexed element, into a python integer)
     return lambda m: m
+
+def _scale_raw_result(m, n_shift):
+    # raw (integer) result `m` scaled by 2**n_shift. When fraction bits are dropped (n_shift < 0) from a result of more than 53 bits, the exact
+    # quotient is kept as Fractions: a float factor would round it to a double before the rounding of the destination is applied
+    if n_shift < 0:
+        m_arr = np.asarray(m)
+        if m_arr.dtype.kind in 'iuO' and m_arr.size > 0 and max(abs(int(np.max(m_arr))), abs(int(np.min(m_arr)))).bit_length() > 53:
+            den = 2**(-n_shift)
+            return np.array([Fraction(int(v), den) for v in m_arr.flatten()], dtype=object).reshape(m_arr.shape)
+    return m * 2**n_shift
 
 def _get_sizing(vars, sizing, method, optimal_size=None):
         if not isinstance(vars, list):
@@ -322,8 +333,9 @@ def add(x, y, out=None, out_like=None, sizing='optimal', method='raw', **kwargs)
     """
     """
     def _add_raw(x, y, n_frac):
-        raw_cast = _raw_cast(x, y, max(x.n_word + n_frac - x.n_frac, y.n_word + n_frac - y.n_frac) + 1)
-        return raw_cast(x.val) * 2**(n_frac - x.n_frac) + raw_cast(y.val) * 2**(n_frac - y.n_frac)
+        n_frac_sum = max(n_frac, x.n_frac, y.n_frac)    # the sum is formed exactly; fraction bits the destination does not have are dropped afterwards
+        raw_cast = _raw_cast(x, y, max(x.n_word + n_frac_sum - x.n_frac, y.n_word + n_frac_sum - y.n_frac) + 1)
+        return _scale_raw_result(raw_cast(x.val) * 2**(n_frac_sum - x.n_frac) + raw_cast(y.val) * 2**(n_frac_sum - y.n_frac), n_frac - n_frac_sum)
 
     if not isinstance(x, Fxp):
         x = Fxp(x)
@@ -343,13 +355,14 @@ def sub(x, y, out=None, out_like=None, sizing='optimal', method='raw', **kwargs)
     """
     """
     def _sub_raw(x, y, n_frac):
-        raw_cast = _raw_cast(x, y, max(x.n_word + n_frac - x.n_frac, y.n_word + n_frac - y.n_frac) + 1)
+        n_frac_sum = max(n_frac, x.n_frac, y.n_frac)    # the difference is formed exactly; fraction bits the destination does not have are dropped afterwards
+        raw_cast = _raw_cast(x, y, max(x.n_word + n_frac_sum - x.n_frac, y.n_word + n_frac_sum - y.n_frac) + 1)
         x_raw, y_raw = raw_cast(x.val), raw_cast(y.val)
         if not x.signed and not y.signed and np.asarray(x_raw).dtype.kind == 'u':
             # the difference of two unsigned codes can be negative: it is computed with signed integers
             # (the aligned codes fit in 63 bits here, wider ones were already turned into python integers)
             x_raw, y_raw = np.asarray(x_raw).astype(np.int64), np.asarray(y_raw).astype(np.int64)
-        return x_raw * 2**(n_frac - x.n_frac) - y_raw * 2**(n_frac - y.n_frac)
+        return _scale_raw_result(x_raw * 2**(n_frac_sum - x.n_frac) - y_raw * 2**(n_frac_sum - y.n_frac), n_frac - n_frac_sum)
 
     if not isinstance(x, Fxp):
         x = Fxp(x)
@@ -370,7 +383,7 @@ def mul(x, y, out=None, out_like=None, sizing='optimal', method='raw', **kwargs)
     """
     def _mul_raw(x, y, n_frac):
         raw_cast = _raw_cast(x, y, x.n_word + y.n_word + max(n_frac - x.n_frac - y.n_frac, 0))
-        return raw_cast(x.val) * raw_cast(y.val) * 2**(n_frac - x.n_frac - y.n_frac)
+        return _scale_raw_result(raw_cast(x.val) * raw_cast(y.val), n_frac - x.n_frac - y.n_frac)
 
     if not isinstance(x, Fxp):
         x = Fxp(x)
